@@ -1764,6 +1764,11 @@ int QSexact_solver (mpq_QSdata * p_mpq,
 		mpf_QSfree_prob (p_mpf);
 		p_mpf = 0;
 	}
+	/* the precision ladder is exhausted: every certified result left through
+	 * CLEANUP above, so a definitive status still standing here comes from a
+	 * floating point solve or a basis evaluation whose exact test failed */
+	if (*status == QS_LP_OPTIMAL || *status == QS_LP_INFEASIBLE)
+		*status = QS_LP_UNSOLVED;
 	/* ending */
 CLEANUP:
 	dbl_EGlpNumFreeArray (x_dbl);
